@@ -156,7 +156,26 @@ def make_sequence(eng, k, n, alphabet):
 
 # ------------------------------------------------------------------- documents: rendering vs the myst-anchors command, all depths
 
-DOC_TITLES = ["a", "a-1", "A", "b c"]
+DOC_TITLES = ["a", "a-1", "A", "b c", "?!"]
+
+
+def expected_slugs(levels, titles, depth):
+    """The documented rule: lower-case, spaces to hyphens, punctuation removed; then -1, -2 ... in order of appearance."""
+    import re
+
+    seen, out = set(), []
+    for l, t in zip(levels, titles):
+        if l > depth:
+            out.append(None)
+            continue
+        base_slug = re.sub(r"[^\w\u4e00-\u9fff\- ]", "", t.lower().replace(" ", "-"))
+        want, i = base_slug, 1
+        while want in seen:
+            want = "%s-%d" % (base_slug, i)
+            i += 1
+        seen.add(want)
+        out.append(want)
+    return out
 EXC_CLASSES = [ValueError, KeyError, RuntimeError, ZeroDivisionError, AttributeError]
 
 
@@ -174,13 +193,27 @@ def run_doc(levels, titles, depth, custom, real=False):
     from harness import common_render as CR
 
     text = "".join("%s %s\n\npara\n\n" % ("#" * l, t) for l, t in zip(levels, titles))
+    exp = expected_slugs(levels, titles, depth)
+    if custom is None:
+        # every anchor is linked once: it must resolve to its own heading
+        text += "".join("L%d [](#%s)\n\n" % (j, sl) for j, sl in enumerate(exp) if sl is not None)
     over = {"myst_heading_anchors": depth, "doctitle_xform": False}
     if custom is not None:
         _failing_slug.which = custom
         over["myst_heading_slug_func"] = _failing_slug
     doc, warn = CR.publish(text, over, real=real)
     rendered = [sec["slug"] for sec in doc.findall(nodes.section) if "slug" in sec]
-    nsec = len(list(doc.findall(nodes.section)))
+    secs = list(doc.findall(nodes.section))
+    nsec = len(secs)
+    links = {}
+    for p_ in doc.findall(nodes.paragraph):
+        m_ = re.match(r"L(\d+) ", p_.astext())
+        if m_ and not isinstance(p_.parent, nodes.system_message):
+            refs = [r for r in p_.findall(nodes.reference)]
+            j = int(m_.group(1))
+            links[j] = None
+            if len(refs) == 1 and refs[0].get("refid") is not None and j < len(secs):
+                links[j] = (refs[0]["refid"] in secs[j]["ids"], refs[0].astext(), refs[0]["refid"])
     if real:
         import myst_parser.cli as cli
     else:
@@ -193,14 +226,14 @@ def run_doc(levels, titles, depth, custom, real=False):
 
         gc.collect()  # argparse.FileType handles are closed by the collector
         printed = re.findall(r'<h\d id="([^"]*)"', open(out, encoding="utf8").read())
-    return rendered, printed, warn, nsec
+    return rendered, printed, warn, nsec, links
 
 
 CLI = {}
 
 
 def check_doc(levels, titles, depth, custom, res):
-    rendered, printed, warn, nsec = res
+    rendered, printed, warn, nsec, links = res
     if nsec != len(levels):
         return ("heading-lost", "%d sections for %d headings" % (nsec, len(levels)))
     within = [(l, t) for l, t in zip(levels, titles) if l <= depth]
@@ -215,16 +248,21 @@ def check_doc(levels, titles, depth, custom, res):
     if rendered != printed:
         return ("render-vs-myst-anchors", "levels %r titles %r depth %d: rendering assigns %r, myst-anchors prints %r" % (levels, titles, depth, rendered, printed))
     # documented rule: base slug, then -1, -2 ... in order of appearance
-    seen = set()
-    for (l, t), got in zip(within, rendered):
-        base_slug = t.lower().replace(" ", "-")
-        want, i = base_slug, 1
-        while want in seen:
-            want = "%s-%d" % (base_slug, i)
-            i += 1
-        seen.add(want)
+    exp = expected_slugs(levels, titles, depth)
+    for (l, t), got, want in zip(within, rendered, [e for e in exp if e is not None]):
         if got != want:
             return ("unique-suffix-order", "levels %r titles %r depth %d: heading %r gets %r, expected %r" % (levels, titles, depth, t, got, want))
+    # every anchor resolves through a '#anchor' link to its own heading
+    for j, want in enumerate(exp):
+        if want is None:
+            continue
+        if links.get(j) is None:
+            return ("anchor-link-unresolved", "levels %r titles %r depth %d: [](#%s) did not resolve (%r)" % (levels, titles, depth, want, warn[:200]))
+        ok, shown, refid = links[j]
+        if not ok:
+            return ("anchor-link-wrong-heading", "levels %r titles %r depth %d: [](#%s) points at %r, not at heading %d (%r)" % (levels, titles, depth, want, refid, j, titles[j]))
+    if "[myst.xref_missing]" in warn:
+        return ("anchor-link-unresolved", "xref_missing reported: %r" % warn[:200])
     return None
 
 
@@ -241,7 +279,7 @@ def make_doc(eng, k, depths, with_custom):
     def body():
         c.reset()
         levels = [1 + c.choose(3) for _ in range(k)]
-        titles = [c.pick(DOC_TITLES) for _ in range(k)]
+        titles = [c.pick(DOC_TITLES if k <= 2 else [t_ for t_ in DOC_TITLES if t_ != "A"]) for _ in range(k)]
         depth = c.pick(depths)
         custom = (c.choose(len(EXC_CLASSES) + 1) - 1) if with_custom else -1
         custom = None if custom < 0 else custom
@@ -292,7 +330,7 @@ def families(tier, seed):
         F.append(Family("sequence/K%d-N%d" % (k, n), make_sequence, "all sequences of %d titles of %d chars over 'aA1- ' (collisions with suffixed forms reachable), text/code_inline split symbolic" % (k, n),
                         args=dict(k=k, n=n, alphabet="aA1- "), nontrivial="slug_nontrivial", required=((k, n) in ((2, 2), (3, 1), (3, 2), (4, 1), (3, 3), (4, 2), (5, 1))), max_forks=30000))
     for k in ([2, 3] if q else [3, 4]):
-        F.append(Family("document/K%d" % k, make_doc, "%d headings (level 1-3, title from %r) x heading_anchors depth in %r: rendered anchors vs the real myst-anchors command (-l depth) vs the documented suffix rule" % (
+        F.append(Family("document/K%d" % k, make_doc, "%d headings (level 1-3, title from %r) x heading_anchors depth in %r: rendered anchors vs the real myst-anchors command (-l depth) vs the documented suffix rule; every anchor linked once and resolving to its own heading" % (
             k, DOC_TITLES, [0, 1, 2, 3, 7]), args=dict(k=k, depths=[0, 1, 2, 3, 7], with_custom=False), nontrivial="slug_nontrivial", max_forks=200000, required=(k <= 3)))
     F.append(Family("document/failing-slug-func", make_doc, "2 headings x depth x a custom slug function raising one of %r: only [myst.heading_slug] warnings" % ([e.__name__ for e in EXC_CLASSES],),
                     args=dict(k=2, depths=[1, 2, 7], with_custom=True), nontrivial="slug_nontrivial", max_forks=200000))
